@@ -34,6 +34,15 @@ func gen(t reflect.Type, tag int, depth int) reflect.Value {
 	if depth > 4 {
 		return v
 	}
+	if depth == 0 && (tag/16+tag%16)%4 == 3 {
+		// now and then the zero value of a nil-able type: a nil func, pointer,
+		// map, channel or slice is a value like any other and must travel
+		// through the mock unchanged
+		switch t.Kind() {
+		case reflect.Func, reflect.Ptr, reflect.Map, reflect.Chan, reflect.Slice:
+			return v
+		}
+	}
 	switch t.Kind() {
 	case reflect.Bool:
 		v.SetBool(tag%2 == 1)
